@@ -219,6 +219,12 @@ class SymExec:
             raise NotStraight("control flow (%s): the body is not single-path" % ek)
         if s.get("m") or e.get("m"):
             return  # println! and friends
+        if ek == "Call" and callee_path(e) in ("std::mem::swap", "core::mem::swap") and len(e.get("args", [])) == 2:
+            pa, pb = self.place(e["args"][0]), self.place(e["args"][1])
+            va, vb = self.read(pa), self.read(pb)
+            self.write(pa, vb)
+            self.write(pb, va)
+            return
         self.ev(e)
 
     def _note_reads(self, stmt, target):
